@@ -478,11 +478,12 @@ class BioSeq():
             subseq = self.__class__(self.data[index], meta=self.meta)
             if update_fts:
                 if isinstance(index, int):
-                    start, stop = index, index + 1
+                    start = index + len(self.data) if index < 0 else index
+                    stop = start + 1
                 elif isinstance(index, slice):
-                    start, stop = index.start, index.stop
                     if index.step not in (None, 1):
                         raise ValueError('update_fts for slices only supported with step==1')
+                    start, stop, _ = index.indices(len(self.data))
                 subseq.fts = self.fts.slice(start, stop, rel=start)
         if inplace:
             self.data = subseq.data
